@@ -184,6 +184,7 @@ func revListShas(scanner *GitScanner, include, exclude []string) (*StringChannel
 		CommitsOnly:      scanner.commitsOnly,
 		Remote:           scanner.remote,
 		SkippedRefs:      scanner.skippedRefs,
+		NoRemoteRefs:     scanner.noRemoteRefs,
 		Names:            nameMap.names,
 		Mutex:            nameMap.mutex,
 	})
